@@ -154,6 +154,14 @@ CHECKS['C05'] = dict(
     design_ref='DESIGN.md 4/C05',
     note='Trusted: MIR = code; std builtins; the harness-built comment map for symbolic lines (one group per comment; models replayed natively). Outside: columns and indentation of the input, more than 2 comment groups, generator programs beyond the skeletons, the -w overwrite path.',
     technique='symbolic execution of rustc MIR (AstPrinter over trees with symbolic line numbers and symbolic string bytes, real parser on the output); z3 decides feasible comment/node orders and byte equality; native replay (bounded: skeletons, comments, bytes)')
+CHECKS['C07'] = dict(
+    category='model_checking',
+    text='Relational check of the real checker against the real evaluator, both from MIR: every C01 skeleton plus ~90 skeletons of documented-valid constructs (map/filter/reduce over let-bound lists, tuples, strings and parameters; calls and copies '
+         'through tuple fields; nested and computed selectors; modules; format; ranges; casts; polymorphic and higher-order functions) is run through FileBuilder::eval_stmts (no checker) and through FileBuilder::build of the same text as a file '
+         '(parser, Checker, translator, VM) with the same symbolic integer leaves. On every path where plain evaluation completes the build must succeed and bind equal values (z3 validity). The test suite has no "accepts what runs" oracle at all.',
+    design_ref='DESIGN.md 4/C07',
+    note='Trusted: MIR = code; virtual file system; std builtins. Outside: programs beyond the skeletons, imports, constraint annotations (excluded by the property), diagnostics text.',
+    technique='symbolic execution of rustc MIR — relational eval_stmts vs build over symbolic integer leaves; z3 decides path feasibility and value equality; replay with the real binary (bounded: skeletons)')
 NOT_APPLICABLE = {
 }
 ALL = ['C%02d' % i for i in range(1, 21)]
